@@ -639,6 +639,13 @@ func TestVerifC14(t *testing.T) {
 	noAttrs := c14mkAttrs()
 	goodAttrs := c14mkAttrs(AttribVendor, c14attr{tok: "num:25882", set: true, val: "25882"}, AttribSubtype, c14attr{tok: "num:21", set: true, val: "21"})
 	ids := []uint32{0, 1, 1 << 31, 1<<32 - 1, uint32(rng.next())}
+	nids := 24
+	if vthorough() {
+		nids = 400
+	}
+	for i := 0; i < nids; i++ {
+		ids = append(ids, uint32(rng.next())>>uint(rng.intn(32)))
+	}
 	raw := []byte{0, 0, 0, 0}
 	b64good := func(name string) c14param { return c14str(name, base64.StdEncoding.EncodeToString(raw), raw) }
 
@@ -823,9 +830,9 @@ func TestVerifC14(t *testing.T) {
 	// ---- W4: documents — ReaderConfig with/without its own KeepAliveSpec, ROSpecs, AccessSpecs
 	kas := []*llrp.KeepAliveSpec{nil, {Trigger: 1, Interval: 30000}, {Trigger: 0, Interval: 0}, {Trigger: 1, Interval: 5000}, {Trigger: 0, Interval: 30000},
 		{Trigger: 1, Interval: 1<<32 - 1}, {Trigger: 1, Interval: 29999}, {Trigger: 1, Interval: 30001}, {Trigger: 1, Interval: 60000}, {Trigger: 1, Interval: 0}}
-	ndocs := 6
+	ndocs := 40
 	if thorough {
-		ndocs = 60
+		ndocs = 400
 	}
 	for i := 0; i < ndocs; i++ {
 		for _, ka := range append(kas, &llrp.KeepAliveSpec{Trigger: llrp.KeepAliveTriggerType(rng.intn(2)), Interval: llrp.Millisecs32(rng.next())}) {
